@@ -435,6 +435,119 @@ func (x *Xfer) RunHeal() {
 	x.Census()
 }
 
+// RunStall is C03: while the reader is stalled the sender comes to a standstill
+// with bounded buffering and without loss; after the reader resumes (and the
+// targeted loss of control datagrams has ended) the transfer completes.
+func (x *Xfer) RunStall(began *bool, stallUntil, lossFrom, lossTo *time.Duration) {
+	s, w := x.S, x.W
+	a, b := x.A, x.B
+	w.Links.Filter = func(p *OutPkt) ([]Delivery, bool) {
+		if !*began || p.Frame == nil || !(p.At >= *lossFrom && p.At < *lossTo) {
+			return nil, false
+		}
+		switch p.Frame.Kind() {
+		case "ack", "probe":
+			s.Stats.Fault("control-datagram-drop")
+			for _, sg := range p.Frame.Segs {
+				switch sg.Cmd {
+				case wCmdWask:
+					s.Stats.Probe("wask-lost")
+				case wCmdWins:
+					s.Stats.Probe("wins-lost")
+				}
+			}
+			s.L.Logf("fate %s>%s#%d control-drop (%s)", p.Src.addrStr, p.Dst, p.Idx, p.Frame.Kind())
+			return nil, true
+		}
+		return nil, false
+	}
+	// what the sender has been shown: wnd of the last regular datagram delivered to A
+	lastWndToA := -1
+	w.Net.OnDeliver = func(to *SimConn, from string, data []byte) {
+		if to != a.Conn {
+			return
+		}
+		fc := w.connFEC[b.Conn.id]
+		f, err := DecodeFrame(w.Ref, fc[0] > 0 && fc[1] > 0, data)
+		if err != nil || len(f.Segs) == 0 {
+			return
+		}
+		lastWndToA = int(f.Segs[len(f.Segs)-1].Wnd)
+	}
+	// every new sn A puts on the wire while the last window it was shown is 0
+	seenSn := map[uint32]bool{}
+	base := s.OnEmit
+	s.OnEmit = func(p *OutPkt) {
+		base(p)
+		if p.Src != a.Conn || p.Frame == nil {
+			return
+		}
+		for _, sg := range p.Frame.Segs {
+			if sg.Cmd != wCmdPush || seenSn[sg.Sn] {
+				continue
+			}
+			seenSn[sg.Sn] = true
+			if lastWndToA == 0 {
+				s.Fail("C03", "standstill", "new-segment-into-zero-window", "A put new sn %d on the wire although the last window it was shown is 0", sg.Sn)
+			}
+		}
+	}
+	largestWrite := int64(70000)
+	s.Invariants = append(s.Invariants, func() {
+		if !*began || s.Now() >= *stallUntil {
+			return
+		}
+		// bounded buffering at the sender while the reader is stalled
+		st := a.StateLite()
+		lim := a.sndWndCfg() + int(largestWrite)/max(1, a.mss()) + 1
+		if st.SndQueue+st.SndBuf > lim {
+			s.Fail("C03", "bounded-buffering", "sender-backlog-exceeds-window", "A holds %d segments while the reader is stalled; send window %d plus one write is %d", st.SndQueue+st.SndBuf, a.sndWndCfg(), lim)
+		}
+		if st.RmtWnd == 0 {
+			s.Stats.Probe("sender-sees-zero-window")
+		}
+	})
+	s.Run(func() bool { return x.Done() || (*began && s.Now() >= *stallUntil && s.Now() >= *lossTo) })
+	if s.Viol == nil && !x.Done() && s.CapHit == "" {
+		// "the transfer resumes and completes": what has been written must arrive.
+		// The writers stop here, so that the budget can count queued segments
+		// instead of guessing how many segments the remaining bytes would become.
+		for _, ep := range w.Eps {
+			ep.WriterDone = true
+			ep.Out.Target = ep.Out.Offered
+		}
+		budget := x.sessBudget()
+		deadline := s.Now() + budget
+		s.L.Logf("reader resumed and control loss ended; transfer must complete within %v", budget)
+		s.At(deadline, "liveness-deadline", func() {})
+		complete := func() bool {
+			for _, ep := range w.Eps {
+				if ep.Writer != nil && ep.Writer.Busy() {
+					return false
+				}
+				ep.Out.Target = ep.Out.Written
+				if ep.In.Read < ep.In.Target {
+					return false
+				}
+			}
+			return true
+		}
+		s.Run(func() bool { return complete() || s.Now() >= deadline })
+		if s.Viol == nil && !complete() && s.CapHit == "" {
+			sa, sb := a.State(), b.State()
+			s.Fail("C03", "resume", "transfer-does-not-resume", "%v after the reader resumed the transfer is incomplete: read %d of %d; A{snd_queue=%d snd_buf=%d una=%d nxt=%d rmt_wnd=%d cwnd=%d probe_wait=%d rto=%d} B{rcv_nxt=%d rcv_queue=%d rcv_buf=%d rcv_wnd=%d}",
+				budget, b.In.Read, b.In.Target, sa.SndQueue, sa.SndBuf, sa.SndUna, sa.SndNxt, sa.RmtWnd, sa.Cwnd, sa.ProbeWait, sa.RxRto, sb.RcvNxt, sb.RcvQueue, sb.RcvBuf, sb.RcvWnd)
+		}
+	}
+	if *began {
+		s.Stats.Probe("stall-completed")
+	}
+	for _, ep := range w.Eps {
+		ep.ReaderDone, ep.WriterDone = true, true
+	}
+	x.Finish()
+}
+
 func scenXfer(r *Run) {
 	o := DrawXferOpt(r.S.Tape, r.Spec.Tier)
 	switch r.Spec.Stratum {
@@ -548,6 +661,51 @@ func scenXfer(r *Run) {
 		if o.Link.LossPM < 50 {
 			o.Link.LossPM = 50 + t.Choose(cs, 250)
 		}
+	}
+	var stallUntil, lossFrom, lossTo time.Duration
+	stallBegan := false
+	if r.Spec.Stratum == "stall" {
+		// C03: the receiving application stops reading for a seeded time (up to 20
+		// virtual minutes), the writer keeps writing; every ACK-only / WASK / WINS
+		// datagram is lost during a seeded window around the pause and the resumption
+		const cs = "stall"
+		t := r.S.Tape
+		r.S.Alias = map[string]string{"C01": "C03", "C04": "C03"}
+		o.Listen = false
+		o.World.Mismatch = false
+		o.BytesBA = int64(t.Skewed(cs, 0, 3000))
+		o.CfgB.RcvWnd = 1 + t.Skewed(cs, 0, 63)
+		o.CfgA.RateLimit, o.CfgB.RateLimit = 0, 0
+		mssA := 1400
+		if o.CfgA.MTU != 0 {
+			mssA = max(60, min(o.CfgA.MTU, 1500))
+		}
+		o.BytesAB = int64(mssA) * int64(20+t.Skewed(cs, 0, 300))
+		o.RModeB.StallAt = 1 + int64(t.Skewed(cs, 0, int(o.BytesAB)-1))
+		o.RModeB.StallFor = time.Duration(1+t.Skewed(cs, 0, 1200000)) * time.Millisecond
+		o.RModeB.PausePM = 0
+		o.RModeB.OnStall = func(until time.Duration) {
+			stallBegan = true
+			stallUntil = until
+			// the targeted-loss window overlaps the pause and/or the resumption
+			now := r.S.Now()
+			switch t.Choose(cs, 4) {
+			case 0: // the whole pause and a bit beyond
+				lossFrom, lossTo = now, until+time.Duration(t.Skewed(cs, 0, 5000))*time.Millisecond
+			case 1: // around the resumption only
+				lossFrom, lossTo = until-time.Duration(t.Skewed(cs, 0, 3000))*time.Millisecond, until+time.Duration(t.Skewed(cs, 0, 8000))*time.Millisecond
+			case 2: // the beginning of the pause
+				lossFrom, lossTo = now, now+time.Duration(t.Skewed(cs, 0, 30000))*time.Millisecond
+			default: // none
+			}
+			r.S.L.Logf("stall until %v; control datagrams lost in [%v,%v)", until, lossFrom, lossTo)
+		}
+		o.Link.Outages, o.Link.GEGoodBad = nil, 0
+		if o.Link.LossPM > 100 {
+			o.Link.LossPM = 100
+		}
+		o.MaxVirtual = 3 * time.Hour
+		o.MaxSteps = 400000
 	}
 	var wrapX, wrapY, wrapF uint32
 	if r.Spec.Stratum == "wrap" {
@@ -663,6 +821,10 @@ func scenXfer(r *Run) {
 	}
 	if r.Spec.Stratum == "heal" {
 		x.RunHeal()
+		return
+	}
+	if r.Spec.Stratum == "stall" {
+		x.RunStall(&stallBegan, &stallUntil, &lossFrom, &lossTo)
 		return
 	}
 	if r.Spec.Stratum == "close" {
